@@ -94,6 +94,7 @@ type Exec struct {
 	callN  int
 	retN   int
 	safeN  int
+	coverN int
 	results []*types.Var
 	inputs []ModelVar
 	notes  []string // inexact ops etc.
@@ -162,13 +163,53 @@ func sanitize(s string) string {
 	return b.String()
 }
 
+// skolemGoal strips universal quantifiers in positive positions of a goal (forall-introduction):
+// the bound variables become fresh constants, so that ground instantiation sees their terms.
+func (ex *Exec) skolemGoal(t *Term) *Term {
+	switch {
+	case t.Op == "forall" && t.BVars != nil:
+		m := map[string]*Term{}
+		for _, v := range t.BVars {
+			m[v.Op] = ex.fresh("sk_"+strings.SplitN(v.Op, "$", 2)[0], v.S)
+		}
+		return ex.skolemGoal(t.Args[0].subst(m))
+	case t.Op == "=>" && len(t.Args) == 2:
+		r := ex.skolemGoal(t.Args[1])
+		if r == t.Args[1] {
+			return t
+		}
+		return mk("=>", SBool, t.Args[0], r)
+	case t.Op == "and":
+		args := make([]*Term, len(t.Args))
+		ch := false
+		for i, a := range t.Args {
+			args[i] = ex.skolemGoal(a)
+			if args[i] != a {
+				ch = true
+			}
+		}
+		if ch {
+			return mk("and", SBool, args...)
+		}
+	}
+	return t
+}
+
 func (ex *Exec) oblige(st *State, kind, name string, goal *Term, src string) *Obligation {
+	goal = ex.skolemGoal(goal)
 	o := &Obligation{Name: ex.fi.Key + "#" + name, Kind: kind, Func: ex.fi.Key, Guard: st.guard, Goal: goal, NDecl: len(ex.decls), Unfold: ex.unfoldDepth(), Src: src, ex: ex, Inputs: ex.inputs}
 	if ex.fc != nil {
 		o.Props = ex.fc.Props
 	}
 	ex.obls = append(ex.obls, o)
 	return o
+}
+
+// coverPoint: vacuity guard -- the path condition at this program point must be satisfiable.
+func (ex *Exec) coverPoint(st *State, kind, where string) {
+	ex.coverN++
+	o := ex.oblige(st, "cover", fmt.Sprintf("cover.%s%d", kind, ex.coverN), tFalse, where+": "+kind+" reachable")
+	o.Cover = true
 }
 
 func (ex *Exec) unfoldDepth() int {
@@ -548,8 +589,10 @@ func (ex *Exec) addrOf(st *State, e ast.Expr) *Val {
 		if sel, ok := ex.info.Selections[x]; ok {
 			if fv, ok := sel.Obj().(*types.Var); ok && fv.Embedded() {
 				base := ex.eval(st, x.X)
-				if _, isPtr := ex.info.TypeOf(x.X).Underlying().(*types.Pointer); isPtr {
-					return tv(base.T, types.NewPointer(fv.Type()))
+				if pt, isPtr := ex.info.TypeOf(x.X).Underlying().(*types.Pointer); isPtr {
+					if owner, ok := pt.Elem().(*types.Named); ok {
+						return tv(ex.embRef(st, base.T, owner, fv), types.NewPointer(fv.Type()))
+					}
 				}
 			}
 		}
@@ -613,11 +656,24 @@ func (ex *Exec) nonNil(st *State, ref *Term, where string) {
 	ex.oblige(st, "safe", fmt.Sprintf("safe.nil.%d", ex.safeN), tNot(tEq(ref, intLit(0))), where+": nil dereference")
 }
 
+// embRef: address of an embedded struct field inside the object at ref (non-nil when ref is).
+func (ex *Exec) embRef(st *State, ref *Term, owner *types.Named, f *types.Var) *Term {
+	r := embRefTerm(ref, owner, f)
+	if st != nil {
+		ex.assume(st, tImp(tNot(tEq(ref, intLit(0))), tNot(tEq(r, intLit(0)))))
+	}
+	return r
+}
+
+func embRefTerm(ref *Term, owner *types.Named, f *types.Var) *Term {
+	return mk("emb_"+shortPkgOf(owner)+"_"+owner.Obj().Name()+"_"+f.Name(), SRef, ref)
+}
+
 func (ex *Exec) loadField(ref *Term, owner *types.Named, f *types.Var) *Term {
 	if f.Embedded() {
 		if en, ok := f.Type().(*types.Named); ok {
 			if _, ok := en.Underlying().(*types.Struct); ok {
-				return ex.loadStruct(ref, en).T
+				return ex.loadStruct(embRefTerm(ref, owner, f), en).T
 			}
 		}
 	}
@@ -663,8 +719,8 @@ func (ex *Exec) selectPath(st *State, base *Val, bt types.Type, path []int, at a
 			} else {
 				ex.nonNil(st, cur.T, ex.pos(at))
 				if f.Embedded() && isStructNamed(f.Type()) {
-					// interior pointer identity: stay on the same ref, switch static type
-					cur = tv(cur.T, types.NewPointer(f.Type()))
+					// interior pointer: a distinct reference derived from the owner's
+					cur = tv(ex.embRef(st, cur.T, named, f), types.NewPointer(f.Type()))
 					ct = cur.GoT
 					continue
 				}
@@ -1413,6 +1469,7 @@ func (ex *Exec) execSwitch(st *State, s *ast.SwitchStmt) *Flow {
 		cond := tOr(conds...)
 		cs := st.clone()
 		ex.assume(cs, tAnd(notPrev, cond))
+		ex.coverPoint(cs, "case", ex.pos(cc))
 		f := ex.execBlock(cs, cc.Body)
 		exits = append(exits, f.normal)
 		exits = append(exits, f.breaks...) // break inside switch leaves the switch
@@ -1471,6 +1528,7 @@ func (ex *Exec) execTypeSwitch(st *State, s *ast.TypeSwitchStmt) *Flow {
 		cond := tOr(conds...)
 		cs := st.clone()
 		ex.assume(cs, tAnd(notPrev, cond))
+		ex.coverPoint(cs, "case", ex.pos(cc))
 		if obj := ex.info.Implicits[cc]; obj != nil {
 			if len(cc.List) == 1 && single != nil {
 				cs.vars[obj] = ex.unbox(x, single)
@@ -1634,6 +1692,12 @@ func (ex *Exec) execLoop(st *State, n int, node ast.Node, cond ast.Expr, body *a
 	if pre != nil {
 		pre(bodySt)
 	}
+	ex.coverPoint(bodySt, "loopbody", ex.pos(node))
+	for i, a := range ls.Asserts {
+		g := ex.specBool(bodySt, a.E, nil)
+		ex.oblige(bodySt, "assert", fmt.Sprintf("assert.loop%d.%s", n, clauseName(a, i)), g, a.Src)
+		ex.assume(bodySt, g)
+	}
 	f := ex.execBlock(bodySt, body.List)
 	back := ex.merge(append([]*State{f.normal}, f.continues...))
 	if back != nil {
@@ -1737,6 +1801,11 @@ func (ex *Exec) execRange(st *State, s *ast.RangeStmt) *Flow {
 			ev.Mag = coll.Mag
 		}
 		bodySt.vars[vobj] = ev
+	}
+	for i, a := range ls.Asserts {
+		g := ex.specBoolWith(bodySt, a.E, map[string]*Val{"$i": bodySt.vars[keyObj]})
+		ex.oblige(bodySt, "assert", fmt.Sprintf("assert.loop%d.%s", n, clauseName(a, i)), g, a.Src)
+		ex.assume(bodySt, g)
 	}
 	f := ex.execBlock(bodySt, s.Body.List)
 	back := ex.merge(append([]*State{f.normal}, f.continues...))
